@@ -4180,7 +4180,12 @@ class State:
                     else:
                         j = i
 
-                    return self.bets[i] * sign(self.blinds_or_straddles[j])
+                    # A post by a late-seated player (negative entry) counts
+                    # for nothing: it must not even break a tie.
+                    return max(
+                        self.bets[i] * sign(self.blinds_or_straddles[j]),
+                        0,
+                    )
 
                 max_bet_index = max(
                     self.player_indices,
